@@ -110,7 +110,7 @@ func checkC05(c *km.Ctx) {
 				// pass-through of its own parameters
 				ci := cs.Instr.(ssa.CallInstruction)
 				a := km.CallArgs(ci.Common())
-				ok := km.Unwrap(a[1]) == ssa.Value(caller.Params[2]) && km.Unwrap(a[2]) == ssa.Value(caller.Params[3])
+				ok := km.Unwrap(a[1]) == ssa.Value(km.ParamAt(caller, 2)) && km.Unwrap(a[2]) == ssa.Value(km.ParamAt(caller, 3))
 				r.Add("R-C05-1", km.FuncName(caller), "setNewAuthCookie passes user and level through", posOf(c, cs.Instr), "genNewSerializedAuthJWT(username param, authlevel param, …)", km.ValStr(a[1])+", "+km.ValStr(a[2]), ok)
 				continue
 			}
@@ -140,7 +140,7 @@ func checkC05(c *km.Ctx) {
 			if f.Op != token.EQL {
 				return false
 			}
-			return (mentionsField(f.X, "Subject") && km.Unwrap(f.Y) == ssa.Value(uj.Params[2])) || (mentionsField(f.Y, "Subject") && km.Unwrap(f.X) == ssa.Value(uj.Params[2]))
+			return (mentionsField(f.X, "Subject") && km.Unwrap(f.Y) == ssa.Value(km.ParamAt(uj, 2))) || (mentionsField(f.Y, "Subject") && km.Unwrap(f.X) == ssa.Value(km.ParamAt(uj, 2)))
 		}}
 		claimsOK := primErrNil("claims verified", RS+"JWTClaims", 0)
 		n := 0
@@ -164,7 +164,7 @@ func checkC05(c *km.Ctx) {
 		for _, cs := range c.G.Callers[uj] {
 			ci := cs.Instr.(ssa.CallInstruction)
 			a := km.CallArgs(ci.Common())
-			ok := cs.Caller == upd && km.Unwrap(a[2]) == ssa.Value(upd.Params[3]) && km.Unwrap(a[3]) == ssa.Value(upd.Params[4])
+			ok := cs.Caller == upd && km.Unwrap(a[2]) == ssa.Value(km.ParamAt(upd, 3)) && km.Unwrap(a[3]) == ssa.Value(km.ParamAt(upd, 4))
 			r.Add("R-C05-3", km.FuncName(cs.Caller), "updateAuthCookieAuthlevel passes user and level through", posOf(c, cs.Instr), "updateAuthJWTWithNewAuthLevel(cookie, username param, authlevel param)", km.ValStr(a[2])+", "+km.ValStr(a[3]), ok)
 		}
 	}
